@@ -252,8 +252,12 @@ func (g *GeneratorBase) TestFile(file *ast.File) bool {
 	if g.commonFlags.FileName == "" {
 		return true
 	}
-	filename := g.pkg.Fset.File(file.Pos()).Name()
-	if filepath.Base(filename) == g.commonFlags.FileName {
+	// file.Pos() is the package clause, which a damaged file may lack: look the file up by its start
+	tf := g.pkg.Fset.File(file.FileStart)
+	if tf == nil {
+		return false
+	}
+	if filepath.Base(tf.Name()) == g.commonFlags.FileName {
 		return true
 	}
 	return false
